@@ -2,6 +2,7 @@ package rules
 
 import (
 	"fmt"
+	"go/ast"
 	"go/token"
 	"go/types"
 	"sort"
@@ -115,6 +116,9 @@ func c03(r *core.Run) {
 	c03Cover(r)
 	c03Leaf(r)
 	c03Perm(r)
+	c03Referent(r)
+	c03TestedThenRendered(r)
+	c03FlagFamilies(r)
 	c03GateSwap(r, "C03.GATE.swap")
 	c03GateComm(r, "C03.GATE.comm")
 	c12IVGate(r, "C03.GATE.iv", "C03.GATE.iv")
@@ -1254,4 +1258,174 @@ func renamerAskedOnEveryPath(fn *ssa.Function, refType string, excuse func(ssa.V
 		}
 	}
 	return askBlocks, nil
+}
+
+// c03Referent: the text that stands for a referenced function depends on WHICH function is referenced: every
+// string a naming helper (string from a *ssa.Function argument) returns is computed from that argument. A branch
+// that names the subject instead renders all references into the own nest alike (f(a)-g(b) and g(a)-f(b) collide).
+func c03Referent(r *core.Run) {
+	p := r.P
+	n := 0
+	for _, fn := range p.FuncsIn("pkg/analysis/ir") {
+		rt := resultTypes(fn)
+		if len(rt) != 1 || rt[0].String() != "string" || fn.Parent() != nil || ast.IsExported(fn.Name()) {
+			continue
+		}
+		var ref *ssa.Parameter
+		np := 0
+		for i, pa := range fn.Params {
+			if i == 0 && fn.Signature.Recv() != nil {
+				continue
+			}
+			np++
+			if isSSAFunctionPtr(pa.Type()) {
+				ref = pa
+			}
+		}
+		if ref == nil || np != 1 {
+			continue
+		}
+		for _, ret := range core.Returns(fn) {
+			n++
+			seen := map[ssa.Value]bool{}
+			var dep func(v ssa.Value, d int) bool
+			dep = func(v ssa.Value, d int) bool {
+				if v == nil || seen[v] || d > 14 {
+					return false
+				}
+				seen[v] = true
+				if v == ssa.Value(ref) {
+					return true
+				}
+				if in, ok := v.(ssa.Instruction); ok {
+					for _, op := range in.Operands(nil) {
+						if op != nil && *op != nil && dep(*op, d+1) {
+							return true
+						}
+					}
+				}
+				return false
+			}
+			r.Check(dep(ret.Results[0], 0), "C03.LEAF", core.FuncName(fn)+"#name-depends-on-the-referenced-function", ret.Pos(), "the returned name is computed from the referenced function", "a name returned for a referenced function is not computed from that function ("+core.Canon(ret.Results[0])+"): all references it is used for render alike, so two functions that call different closures / nest members share a fingerprint")
+		}
+	}
+	r.Floor("C03.LEAF", "returns of the helpers that name a referenced function", n, 2)
+}
+
+// c03TestedThenRendered: an optional operand (a field of an SSA construct that may be nil) that the renderer tests for
+// presence is also the operand it renders: after `x.F != nil` the function uses x.F itself. Testing one field and
+// rendering another leaves the tested operand out of the IR.
+func c03TestedThenRendered(r *core.Run) {
+	p := r.P
+	n := 0
+	for _, fn := range p.FuncsIn("pkg/analysis/ir") {
+		for _, b := range fn.Blocks {
+			if len(b.Instrs) == 0 {
+				continue
+			}
+			ifi, ok := b.Instrs[len(b.Instrs)-1].(*ssa.If)
+			if !ok {
+				continue
+			}
+			x, _, okN := core.NilCompare(ifi.Cond)
+			if !okN {
+				continue
+			}
+			base, name, isF := fieldLoadBy(core.Unwrap(x), func(t types.Type) bool { return strings.HasSuffix(t.String(), "ssa.Value") })
+			if !isF || !strings.Contains(core.Deref(base.Type()).String(), ssaPkgPath) {
+				continue
+			}
+			n++
+			used := false
+			core.InstrsOf(fn, func(in ssa.Instruction) {
+				c := core.CallOf(in)
+				if c == nil {
+					return
+				}
+				for _, a := range core.CallArgs(c) {
+					b2, n2, isF2 := fieldLoadBy(core.Unwrap(a), func(t types.Type) bool { return true })
+					if isF2 && n2 == name && core.Canon(b2) == core.Canon(base) {
+						used = true
+					}
+				}
+			})
+			r.Check(used, "C03.LEAF", core.FuncName(fn)+"#tested-operand-is-rendered("+core.TypeName(core.Deref(base.Type()))+"."+name+")", ifi.Pos(), "the operand that is tested for presence is handed to the renderer", "the optional operand "+name+" is tested for presence but never handed to a renderer: what is rendered in its place is another field, so two instructions that differ only in "+name+" (the value sent in a select case) share their IR")
+		}
+	}
+	r.Floor("C03.LEAF", "presence tests of optional SSA operands", n, 1)
+}
+
+// c03FlagFamilies: a switch of the literal policy governs one family of literals: a flag that decides about string
+// literals (it is tested under "the literal is a string") is not tested under "the literal is an integer", and vice
+// versa. A string flag in an integer clause makes that clause follow the wrong setting: under the default policy small
+// map keys are abstracted, and m[1] and m[2] collide.
+func c03FlagFamilies(r *core.Run) {
+	p := r.P
+	n := 0
+	for _, fn := range p.FuncsIn("pkg/analysis/ir") {
+		rt := resultTypes(fn)
+		if fn.Signature.Recv() == nil || len(rt) != 1 || rt[0].String() != "bool" || len(fn.Params) < 2 || !strings.HasSuffix(fn.Params[1].Type().String(), "ssa.Const") {
+			continue
+		}
+		kindTest := func(cond ssa.Value) int64 {
+			b, ok := cond.(*ssa.BinOp)
+			if !ok || b.Op != token.EQL {
+				return -1
+			}
+			c, isCall := b.X.(*ssa.Call)
+			k, isK := core.ConstInt(b.Y)
+			if isCall && isK && c.Call.IsInvoke() && c.Call.Method.Name() == "Kind" {
+				return k
+			}
+			return -1
+		}
+		// regions: blocks dominated by the true successor of a kind test (directly or through its value)
+		region := map[*ssa.BasicBlock]map[int64]bool{}
+		for _, b := range fn.Blocks {
+			if len(b.Instrs) == 0 {
+				continue
+			}
+			ifi, ok := b.Instrs[len(b.Instrs)-1].(*ssa.If)
+			if !ok {
+				continue
+			}
+			k := kindTest(ifi.Cond)
+			if k < 0 {
+				continue
+			}
+			for _, d := range fn.Blocks {
+				if b.Succs[0].Dominates(d) && len(b.Succs[0].Preds) == 1 {
+					if region[d] == nil {
+						region[d] = map[int64]bool{}
+					}
+					region[d][k] = true
+				}
+			}
+		}
+		flagKinds := map[string]map[int64]bool{}
+		for _, b := range fn.Blocks {
+			if len(b.Instrs) == 0 {
+				continue
+			}
+			ifi, ok := b.Instrs[len(b.Instrs)-1].(*ssa.If)
+			if !ok {
+				continue
+			}
+			base, name, isF := fieldLoadBy(core.Unwrap(ifi.Cond), func(t types.Type) bool { return t.String() == "bool" })
+			if !isF || core.Unwrap(base) != ssa.Value(fn.Params[0]) {
+				continue
+			}
+			for k := range region[b] {
+				if flagKinds[name] == nil {
+					flagKinds[name] = map[int64]bool{}
+				}
+				flagKinds[name][k] = true
+			}
+		}
+		for name, ks := range flagKinds {
+			n++
+			r.Check(len(ks) <= 1, "C03.LEAF", core.FuncName(fn)+"#flag-governs-one-literal-kind("+name+")", fn.Pos(), "the switch is consulted for one kind of literal only", "the policy switch "+name+" is consulted both for string and for integer literals: one of the clauses follows the wrong setting, so literals the policy documents as kept are abstracted there (m[1] and m[2] share a fingerprint under the default policy)")
+		}
+	}
+	r.Floor("C03.LEAF", "policy switches consulted under a literal-kind test", n, 2)
 }
